@@ -38,8 +38,13 @@ func RenameArgumentsAction(newNames []string) RewriteAction {
 			newOpt.Args[i].Name = newNames[i]
 
 			for j, assignment := range newOpt.Assignments {
-				if assignment.Value.Argument != nil && assignment.Value.Argument.Name == previousName {
-					newOpt.Assignments[j].Value.Argument.Name = newNames[i]
+				renameArgumentInValue(&newOpt.Assignments[j].Value, previousName, newNames[i])
+
+				// the argument can be used as an index in the assignment's path (`labels[key] = value`)
+				for k, pathItem := range assignment.Path {
+					if pathItem.Index != nil && pathItem.Index.Argument != nil && pathItem.Index.Argument.Name == previousName {
+						newOpt.Assignments[j].Path[k].Index.Argument.Name = newNames[i]
+					}
 				}
 
 				// constraints are checked on the argument: they refer to it by name too
@@ -54,6 +59,20 @@ func RenameArgumentsAction(newNames []string) RewriteAction {
 		newOpt.AddToVeneerTrail("RenameArguments")
 
 		return []ast.Option{newOpt}
+	}
+}
+
+// renameArgumentInValue renames an argument wherever an assignment value refers to it:
+// directly, or from within the fields of an envelope.
+func renameArgumentInValue(value *ast.AssignmentValue, previousName string, newName string) {
+	if value.Argument != nil && value.Argument.Name == previousName {
+		value.Argument.Name = newName
+	}
+
+	if value.Envelope != nil {
+		for i := range value.Envelope.Values {
+			renameArgumentInValue(&value.Envelope.Values[i].Value, previousName, newName)
+		}
 	}
 }
 
